@@ -397,7 +397,7 @@ CHECK = Check(
           'widths 0, < 1e-3 (widened) up to 600, n2 1-50 sampled points (seed given as int/None/RandomState) plus 12 oracle-placed query '
           'points (inside, outside, near faces); line search: 6 objective shapes along a line, boundaries incl. exact multiples of the step, '
           'eta, K, rep_lim incl. 1-10; region constructor on quadratic bowls; posterior: 1-6 regions/objectives, ModelPrior of a real '
-          'model, surrogate_used on/off, a sequence of 1-3 cut-offs on ONE posterior object. Non-trivial: d >= 2 with a rotation whose '
+          'model, surrogate_used on/off, a sequence of 1-3 cut-offs (incl. exactly 0: nothing accepted) on ONE posterior object, bounds wide or tighter than the regions. Non-trivial: d >= 2 with a rotation whose '
           'off-diagonal exceeds 0.1 and a non-zero centre (box); the objective crossed the threshold (line); d >= 2 with a non-zero count '
           '(posterior).'),
     parts=[Part('box', run_box, strategy=strat_box, examples={'quick': 600, 'thorough': 32000}),
